@@ -35,6 +35,7 @@ ASSUMPTIONS = ["ref/rv32.py states the RISC-V Unprivileged ISA manual 20191213 c
                "any exception out of encode()/relocation.apply() = operand combination rejected"]
 SHIMS_USED = ["isinstance", "int", "range", "bytes", "bytearray", "struct", "bool"]
 JOB_TIMEOUT = {"quick": 150, "thorough": 600}
+TASKS_PER_CHILD = 64
 
 
 class EncodingHarness(_rv.EncodeHarness):
